@@ -7,6 +7,16 @@ BASE_NOTE = ("Trusted: Coq 8.16.1 kernel (no native_compute; vm_compute only in 
              "(Print Assumptions parsed every run; theorems at R would add the 3 stdlib real axioms); ExtrOcamlBasic extraction with Z/Q/Qc kept as datatypes + a Zarith I/O driver; "
              "the Python correspondence harness and its tolerances; JAX/NumPy primitives are modelled by contracts (rfftn/irfftn = DFT half-spectrum, scan = fold, exp). ")
 CLAIMED = {
+ "C16": dict(text="Theorems (any field of characteristic 0; order laws / root laws only as premises, shown satisfiable over Qc): the band mask is the documented box and consecutive bands add up to the "
+                  "un-banded metric; channel additivity (spatial and Fourier, with and without reference); L-scaling (L/L')^D with (L'/L)^(2m) for derivative order m; homogeneity, scale-freeness of "
+                  "the normalized / symmetric variants, zero on identical inputs, symmetry, positivity, option validation; Parseval: the conjugation-free bilinear identity, the half spectrum with "
+                  "multiplicities for real sequences, and model fourier_agg = spatial_agg for D = 1 and every n; the Sobolev split and the H1 closed form (weights 1 + |2 pi k / L|^2); "
+                  "Cauchy-Schwarz via the Lagrange identity, corr^2 = corr2, -1 <= corr <= 1, +-1 for proportional fields. The extracted metric model is compared in exact rationals with the "
+                  "real functions (MSE/nMSE/sMSE, fourier_*, H1_*, correlation, mean_metric, scaling array, band mask).",
+             note="PARTIAL: Parseval for D >= 2 (needs the iterated D-dimensional DFT) and resolution independence are decided on the real code only (independent NumPy quadrature, closed-form "
+                  "trigonometric polynomials, map_between_resolutions). The absolute 1e-5 coefficient floor of fourier_aggregator is not modelled (statements are about spectra the floor leaves "
+                  "untouched, as the property says); p = 1 metrics are witness-only; sqrt enters as an abstract root function.",
+             technique="Rocq proof (field identities, lia on band arithmetic, 1-D DFT Parseval, Lagrange identity) + exact-rational correspondence + independent quadrature oracle", design="§4 C16"),
  "C06": dict(text="PARTIAL. Theorems (every state type, every stepper function / parameterised family, every n, every batch), under the stated contracts of the JAX transformations (vmap f = map f, "
                   "jit f = f, scan = fold, swapaxes = transpose): batch independence, replacing one member changes only that member, vmap(rollout f n) = transpose(rollout (vmap f) n), the same for "
                   "repeat and for families of steppers with per-member states. About the code: a table of EVERY Python-level test reachable from every exported stepper class "
@@ -74,7 +84,7 @@ CLAIMED = {
                   "from the source) leaves the mean unchanged; every constant equilibrium (lambda u + N(u) = 0) is a fixed point of ETD1/ETD2RK/ETD3RK/ETD4RK for every h.",
              note="PARTIAL: also proved (antisymmetry of the dealiased convolution sums under m -> -m, any field of characteristic 0, 2K < N): zero mean of the non-conservative single-channel and 1D "
                   "default convection and of the 2D vorticity convection for every state, and of the Leray-projected 3D rotational form on divergence-free states. Energy/enstrophy "
-                  "neutrality of the convective terms is not proved; they are decided on the real code by the witness oracle for all listed steppers x orders 1-4 x D x N parity.",
+                  "neutrality of the convective terms is not proved; it is decided on the real code by the witness oracle for all listed steppers x orders 1-4 x D x N parity.",
              technique="Rocq proof (stage-program algebra, list induction; tableaux fixed points) + exact symbol correspondence + conservation oracle on the real code", design="§4 C09"),
  "C12": dict(text="Theorems: for 0<k<N/2 the 2D injection array equals N^2/2 * (-k s gamma) at stored mode (0,k) and 0 elsewhere, the 3D one N^3/2 * (-/+ i gamma) at (0,+/-k,0) in channel 0 and 0 elsewhere "
                   "- the transforms of the documented -k(2pi/L)gamma cos and gamma sin (transform of a real harmonic proved from a primitive root); the 2D convection term vanishes identically on "
